@@ -665,6 +665,9 @@ class CDSInterval(AbstractFeatureInterval):
         Any leading or trailing bases that are annotated as CDS but cannot form a full codon
         are excluded.
         """
+        # a CDS that has no base on its sequence chunk has no chunk-relative codons
+        if chunk_relative_coordinates and self.chunk_relative_location.is_empty:
+            return
         # can only do naive window scanning if this CDS has exactly one exon
         if self.num_blocks > 1:
             codon_fn = self._prepare_multi_exon_window_for_scan_codon_locations
@@ -702,6 +705,9 @@ class CDSInterval(AbstractFeatureInterval):
             chunk_relative_cleaned_location = self.liftover_location_to_seq_chunk_parent(
                 relative_loc, self.chunk_relative_location.parent
             )
+            # no base of this CDS (within the window) lies on the sequence chunk: nothing to iterate over
+            if chunk_relative_cleaned_location.is_empty:
+                return chunk_relative_cleaned_location, 0
             # lift this back to chromosome coordinates -- this produces a chromosome coordinate Location
             # whose bounds are the portion of this CDS that are contained on the sequence chunk
             loc_on_chrom = chunk_relative_cleaned_location.lift_over_to_first_ancestor_of_type(SequenceType.CHROMOSOME)
@@ -772,6 +778,9 @@ class CDSInterval(AbstractFeatureInterval):
             chunk_relative_cleaned_location = self.liftover_location_to_seq_chunk_parent(
                 relative_cleaned_location, self.chunk_relative_location.parent
             )
+            # none of the in-frame bases (within the window) lies on the sequence chunk: nothing to iterate over
+            if chunk_relative_cleaned_location.is_empty:
+                return chunk_relative_cleaned_location, 0
             # lift this back to chromosome coordinates -- this produces a chromosome coordinate Location
             # whose bounds are the portion of this CDS that are contained on the sequence chunk
             loc_on_chrom = chunk_relative_cleaned_location.lift_over_to_first_ancestor_of_type(SequenceType.CHROMOSOME)
